@@ -340,12 +340,14 @@ func init() {
 		ops := evidenceReadOps()
 		k1 := fixtures.Get("ES256", 1)
 		seeds := c02Claims()
-		var toks [][]byte
+		var toks, derToks [][]byte
 		for ci := range seeds {
-			toks = append(toks, c02MakeSeed("ES256", 1, ci).tok)
+			sd := c02MakeSeed("ES256", 1, ci)
+			toks = append(toks, sd.tok)
+			derToks = append(derToks, envelope(sd.view.prot, mcbor.M(), sd.view.payload, rawSignDER(k1, "ES256", sd.view.prot, sd.view.payload)))
 		}
 		return func(c *choice.Ctx) {
-			kind := c.Choose("kind", 3) // 0 decoded, 1 signing, 2 decoded from a token whose signature is broken
+			kind := c.Choose("kind", 4) // 0 decoded, 1 signing, 2 decoded from a token whose signature is broken, 3 ... is in ASN.1 DER form
 			ci := c.Choose("claims", len(seeds))
 			i1 := c.Choose("op1", len(ops))
 			if !c18Mine(kind*7 + ci*3 + i1) {
@@ -356,6 +358,12 @@ func init() {
 				switch kind {
 				case 0:
 					ev, err := psatoken.DecodeEvidenceFromCOSE(append([]byte{}, toks[ci]...))
+					if err != nil {
+						panic(choice.HarnessError{Msg: err.Error()})
+					}
+					return ev
+				case 3:
+					ev, err := psatoken.DecodeEvidenceFromCOSE(append([]byte{}, derToks[ci]...))
 					if err != nil {
 						panic(choice.HarnessError{Msg: err.Error()})
 					}
